@@ -114,6 +114,20 @@ def join_table(ctx, facts):
                     ok2 = a2[0] == "call" and a2[1].endswith("::name")
                     sep = models.cchar(a1)
                     row = ("Join", sep, nsstate) if ok0 and ok2 and sep is not None else ("?", nshow(n)[:100])
+            elif inner[0] == "var" and len(inner) > 2 and inner[2][0] == "call" and inner[2][1].split("::")[-1] in ("new", "with_capacity"):
+                # a String built by pushes on this path: push_str(namespace) push(sep) push_str(name)
+                effs = [e for e in models.mut_effects(view) if e["bb"] in o["path"] and e["target"][:2] == ("var", inner[1]) and not e["path"].endswith("deref_mut")]
+                effs.sort(key=lambda e: o["path"].index(e["bb"]))
+                if len(effs) == 3 and [e["path"].split("::")[-1] for e in effs] == ["push_str", "push", "push_str"]:
+                    def sv(x):
+                        while x[0] == "conv":
+                            x = x[1]
+                        return x
+                    a0, a1, a2 = sv(effs[0]["args"][1]), sv(effs[1]["args"][1]), sv(effs[2]["args"][1])
+                    ok0 = a0[0] == "some" and a0[1][0] == "call" and a0[1][1].endswith("::namespace")
+                    ok2 = a2[0] == "call" and a2[1].endswith("::name") and a2[2] == (("arg", 1),)
+                    sep = models.cchar(a1)   # `view` is the body on this path: a separator chosen by an earlier match is a constant here
+                    row = ("Join", sep, nsstate) if ok0 and ok2 and sep is not None else ("?", "pushes: " + "; ".join(nshow(x)[:40] for x in (a0, a1, a2)))
         if row is None:
             row = ("?", nshow(n)[:100])
         for v in vs:
